@@ -133,8 +133,8 @@ def _simplify_math(f: Callable) -> ast.AST:
 
         try:
             source = str(sympy.simplify(source))
-        except (ArithmeticError, ValueError, TypeError) as error:
-            # For example 1 // 0 or 1 << -1, which sympy evaluates
+        except (ArithmeticError, ValueError, TypeError, LookupError, AttributeError) as error:
+            # For example 1 // 0, 1 << -1 or [][0], which sympy evaluates
             raise NotImplementedError(f"Cannot simplify {source}") from error
 
         return core.parse(source)
